@@ -16,7 +16,7 @@ EXPLANATION = ("Complete per depth where listed as proved_units; searches (cover
 ASSUMPTIONS = ["order of centres in the projection plane (y descending, then x ascending in [0,8)) equals (latitude descending, longitude ascending in [0,2pi)): unproj monotone, argued from the formulae",
                "depths not listed under proved_units are NOT proved (only searched for counterexamples within a time budget)",
                "Layer::new(depth) used directly",
-               "Verus unit: struct Layer reduced to (depth, nside, n_hash) with wf(): nside == 2^depth, n_hash == 12*4^depth, depth <= 29 (what Layer::new establishes; assumed in the Verus file, exercised by every Kani unit)",
+               "Verus unit: struct Layer reduced to (depth, nside, n_hash) with wf(): nside == 2^depth, n_hash == 12*4^depth, depth <= 29 (what Layer::new establishes: proved for every depth by the Kani unit layer_new_wf)",
                "Verus unit: Layer::decode_hash is external_body with the ASSUMED contract d0h < 12, i < nside, j < nside (codec verified by Kani in C04/C18); to_ring's result is stated as a function of the decoded parts",
                "Verus unit: the float expression (((1 + (hash << 1)) as f64).sqrt() as u64 - 1) >> 1 is replaced by an uninterpreted function ASSUMED to be within +-1 of the exact ring index (searched on the real expression by the Kani units pcri_contract_*)",
                "Verus unit: generic helper div2_quotient<T: Shr> is inlined textually as `>> 1u8` (its body `x.shr(1)` is guarded); debug_assert! is turned into a proof obligation; machine integers are modelled exactly (overflow checked), shifts via vstd bit-vector lemmas",
@@ -68,6 +68,8 @@ def units():
                    "polar_cap_ring_index(h) = r with 2r(r+1) <= h < 2(r+1)(r+2) for all h < 2^62 GIVEN a float estimate within +-1",
                    engine="verus", level="P", timeout=600, extra=dict(spec="verus_ring", rlimit=60),
                    bound="none (all depths, all cells); codec contracts (decode_hash range, decode(build(p)) == p) and float-sqrt accuracy assumed"))
+    us.append(Unit("layer_new_wf", P + "layer_new_wf", ["Layer::new"], "every depth 0..=29 (symbolic): Layer::new establishes wf() assumed by the Verus contracts: nside == 2^depth, n_hash == 12*4^depth, nside_remainder_mask == nside - 1",
+                   level="P", timeout=600, bound="none (depth symbolic in 0..=29)"))
     us.append(Unit("ring_core_verus_canary", "contracts/verus_ring.py", VF, "vacuity guard: a false claim after to_ring under the same preconditions must fail",
                    kind="canary", engine="verus", timeout=600, extra=dict(spec="verus_ring", rlimit=60)))
     us.append(Unit("ring_canary_d02", P + "ring_canary_d02", TR, "vacuity guard", kind="canary"))
